@@ -47,20 +47,21 @@ structure St where
   done : List Schema := []         -- finished schemas, reversed
   schemaName : String := "s"
   schemaLine : Nat := 0
+  schemaFile : Option String := none
   started : Bool := false
   ifaces : List Iface := []        -- of the current schema, reversed
   decls : List Decl := []          -- of the current schema, reversed
   order : List String := []
   deriving Inhabited
 
-def St.current (st : St) : Schema := ⟨st.schemaName, st.schemaLine, st.decls.reverse, st.ifaces.reverse⟩
+def St.current (st : St) : Schema := ⟨st.schemaName, st.schemaLine, st.decls.reverse, st.ifaces.reverse, st.schemaFile⟩
 
 def St.file (st : St) : File :=
   ⟨st.path, (if st.started then st.current :: st.done else st.done).reverse, st.order⟩
 
-def St.newSchema (st : St) (n : String) (l : Nat) : St :=
+def St.newSchema (st : St) (n : String) (l : Nat) (file : Option String := none) : St :=
   { st with done := (if st.started then st.current :: st.done else st.done),
-            schemaName := n, schemaLine := l, started := true, ifaces := [], decls := [] }
+            schemaName := n, schemaLine := l, schemaFile := file, started := true, ifaces := [], decls := [] }
 
 def updEntity (st : St) (f : Entity → Entity) : Option St :=
   match st.decls with
@@ -99,7 +100,8 @@ def showArg : Diag.Arg → String
   | .int i => "d" ++ toString i
   | .real t => "f" ++ hex t
 
-def lexOf (st : St) : List Diag.Diag := (Lex.lexDiags st.bytes).map (Lex.toDiag st.path.toList st.bytes)
+def lexOf (st : St) : List Diag.Diag :=
+  (Lex.lexDiags st.bytes).map (fun d => Lex.toDiag st.path.toList st.bytes d ResolveGen.lineBase)
 
 def runReply (st : St) (tool : Diag.Tool) (sws : List Diag.Switch) : String :=
   let f := st.file
@@ -140,6 +142,11 @@ def handle (st : St) (line : String) : St × String :=
   | ["file", p] => match unhexS p with | some p => ({ (default : St) with path := p }, "") | none => bad
   | ["bytes", h] => match (if h = "-" then some [] else unhex h.toList) with | some b => ({ st with bytes := b }, "") | none => bad
   | ["schema", n, l] => ok (l.toNat?.map fun l => st.newSchema n l)
+  | ["schema", n, l, fh] => ok (do
+      let l ← l.toNat?; let fl ← unhexS fh
+      pure (st.newSchema n l (some fl)))
+  | ["unique", lab, l, q, a] => ok (l.toNat? >>= fun l =>
+      updEntity st fun e => { e with uniques := e.uniques ++ [⟨lab, l, if q = "-" then none else some q, a⟩] })
   | ["iface", k, sch, l, form] =>
     (match k, form, l.toNat? with
      | "use", "whole", some l => ({ st with ifaces := ⟨.use, sch, l, none⟩ :: st.ifaces }, "")
@@ -152,7 +159,7 @@ def handle (st : St) (line : String) : St × String :=
   | ["redecl", n, l, t, sup] => ok (do
       let l ← l.toNat?; let t ← parseTypeRef t
       updEntity st fun e => { e with attrs := e.attrs ++ [⟨n, l, t, none, some sup⟩] })
-  | ["entity", n, l] => ok (l.toNat?.map fun l => { st with decls := .entity ⟨n, l, [], [], [], []⟩ :: st.decls })
+  | ["entity", n, l] => ok (l.toNat?.map fun l => { st with decls := .entity ⟨n, l, [], [], [], [], []⟩ :: st.decls })
   | ["super", n, l] => ok (l.toNat? >>= fun l => updEntity st fun e => { e with supers := e.supers ++ [(n, l)] })
   | ["sub", n] => ok (updEntity st fun e => { e with subs := e.subs ++ [n] })
   | ["attr", n, l, t] => ok (do
@@ -194,7 +201,7 @@ def handle (st : St) (line : String) : St × String :=
      | "1", some es => (st, dfsReply true e es)
      | _, _ => bad)
   | ["consts"] =>
-    (st, s!"C fwd={LibErrors.withLineForwardsVaList} guard={LibErrors.setWarningNullGuard} sevGuard={LibErrors.setWarningSeverityGuard} retSub={ResolveGen.visitedReturnsSubsuper} retSel={ResolveGen.visitedReturnsSelect} fallback={ResolveGen.renameUselistFallback}")
+    (st, s!"C fwd={LibErrors.withLineForwardsVaList} guard={LibErrors.setWarningNullGuard} sevGuard={LibErrors.setWarningSeverityGuard} retSub={ResolveGen.visitedReturnsSubsuper} retSel={ResolveGen.visitedReturnsSelect} fallback={ResolveGen.renameUselistFallback} lineBase={ResolveGen.lineBase} lineReset={ResolveGen.lineResetPerFile}")
   | [] => (st, "")
   | _ => bad
 
